@@ -4,6 +4,8 @@ SPECIFICATION Spec
 CONSTANTS
   ParamTypes <- ParamsQuick
   ArgKinds <- ArgsQuick
+  ArrayParams <- NoArrays
+  ArrayArgs <- ArrayArgsAll
   MaxParams = 2
   MaxArgs = 2
   InitWhenEmpty = FALSE
